@@ -2,16 +2,35 @@
 //! length and an entry of the native replay registry.
 
 use crate::common::Outcome;
+use crate::props::attr::*;
+use crate::props::bufstep::*;
+use crate::props::cfgdiff::*;
+use crate::props::esc::*;
+use crate::props::ns::*;
 use crate::props::scan::*;
 use crate::props::step::*;
+use crate::props::writer::*;
 use crate::refmodel::tok::*;
 
+/// Loop-free stand-in for `core::str::from_utf8` (used with `-Z stubbing` by the harnesses marked
+/// `stub_utf8`): it ASSERTS, through a solver-chosen index, that every byte is 7-bit - where it is
+/// exact - so it can never silently be used on input where it would be wrong.
+#[cfg(kani)]
+pub fn from_utf8_ascii(v: &[u8]) -> Result<&str, core::str::Utf8Error> {
+    let i: usize = kani::any();
+    if i < v.len() {
+        assert!(v[i] < 0x80, "STUB: from_utf8 stub is only exact on 7-bit input");
+    }
+    Ok(unsafe { core::str::from_utf8_unchecked(v) })
+}
+
 macro_rules! harnesses {
-    ($( $name:ident, unwind = $u:literal, raw = $k:literal, $f:expr; )*) => {
+    ($( $(#[$attr:meta])* $name:ident, unwind = $u:literal, raw = $k:literal, $f:expr; )*) => {
         $(
             #[cfg(kani)]
             #[kani::proof]
             #[kani::unwind($u)]
+            $(#[$attr])*
             fn $name() {
                 let raw: [u8; $k] = kani::any();
                 let f: fn(&[u8]) -> Outcome = $f;
@@ -26,15 +45,26 @@ macro_rules! harnesses {
 }
 
 const fn rg(state: u8, first: u8, prefix: &'static [u8], covers: u16) -> Region {
-    Region { state, first, prefix, cfg_and: 0x7f, cfg_or: 0, ascii: false, covers }
+    Region { state, first, prefix, cfg_and: 0x7f, cfg_or: 0, ascii: false, covers, fixed_len: 255, shape: 0xFFFF }
+}
+const fn rgl(state: u8, first: u8, prefix: &'static [u8], covers: u16, fixed_len: u8) -> Region {
+    Region { state, first, prefix, cfg_and: 0x7f, cfg_or: 0, ascii: false, covers, fixed_len, shape: 0xFFFF }
 }
 /// C08 is stated for the settings under which nothing is trimmed, expanded, or rejected
 /// (check_comments stays symbolic)
 const fn rg8(state: u8, first: u8, prefix: &'static [u8], covers: u16) -> Region {
-    Region { state, first, prefix, cfg_and: 0x03, cfg_or: 0x01, ascii: false, covers }
+    Region { state, first, prefix, cfg_and: 0x03, cfg_or: 0x01, ascii: false, covers, fixed_len: 255, shape: 0xFFFF }
 }
 const fn rga(state: u8, first: u8, prefix: &'static [u8], covers: u16) -> Region {
-    Region { state, first, prefix, cfg_and: 0x7f, cfg_or: 0, ascii: true, covers }
+    Region { state, first, prefix, cfg_and: 0x7f, cfg_or: 0, ascii: true, covers, fixed_len: 255, shape: 0xFFFF }
+}
+/// concrete stack shape (depth, len0, len1), ASCII, everything else symbolic
+const fn rgs(state: u8, first: u8, covers: u16, depth: u16, l0: u16, l1: u16) -> Region {
+    Region { state, first, prefix: b"", cfg_and: 0x7f, cfg_or: 0, ascii: true, covers, fixed_len: 255, shape: depth | (l0 << 2) | (l1 << 4) }
+}
+/// only the switches in `cfg_and` are symbolic, the others neutral
+const fn rgc(state: u8, first: u8, prefix: &'static [u8], cfg_and: u8) -> Region {
+    Region { state, first, prefix, cfg_and, cfg_or: 0, ascii: false, covers: 0, fixed_len: 255, shape: 0xFFFF }
 }
 const BOM: &[u8] = &[0xEF, 0xBB, 0xBF];
 const C0103: u32 = C01 | C03;
@@ -58,6 +88,15 @@ harnesses! {
     // deliberately false: the driver's self-test of the violation path (never in a property's plan)
     z_selftest_false, unwind = 10, raw = 10, |r| crate::props::scan::check_selftest_false::<8>(r);
 
+    // ---- event constructors on scanner output; raw = 7 + N; generics <N, N+1>
+    e_cdata_n12,   unwind = 15, raw = 19, |r| check_emit::<12, 13>(r, 0, C0103);
+    e_comment_n10, unwind = 13, raw = 17, |r| check_emit::<10, 11>(r, 1, C0103);
+    e_doctype_n12, unwind = 15, raw = 19, |r| check_emit::<12, 13>(r, 2, C0103);
+    e_pi_n8,       unwind = 11, raw = 15, |r| check_emit::<8, 9>(r, 3, C0103);
+    e_end_n4,      unwind = 7,  raw = 11, |r| check_emit::<4, 5>(r, 4, C0103 | C04);
+    e_end_n6,      unwind = 9,  raw = 13, |r| check_emit::<6, 7>(r, 4, C0103 | C04);
+    e_start_n8,    unwind = 11, raw = 15, |r| check_emit::<8, 9>(r, 5, C0103);
+
     // ---- one reader step (slice source); raw = 7 + D + D*L + N; generics <N, P, D, L> ------------
     // C01 (+C03 clauses: same runs decide both; labels tell them apart)
     s1_tag_n4,      unwind = 6,  raw = 11, |r| check_step::<4, 4, 0, 0>(r, &rg(ST_MARKUP, 1, b"", CV_START | CV_EMPTY), C0103);
@@ -74,4 +113,190 @@ harnesses! {
     s1_initbom_n3,  unwind = 8,  raw = 10, |r| check_step::<3, 6, 0, 0>(r, &rg(ST_INIT, 0, BOM, CV_TEXT | CV_START), C0103);
     s1_empty_n2,    unwind = 5,  raw = 12, |r| check_step::<2, 2, 1, 2>(r, &rg(ST_EMPTY, 0, b"", CV_END), C0103);
     s1_done_n2,     unwind = 4,  raw = 9,  |r| check_step::<2, 2, 0, 0>(r, &rg(ST_DONE, 0, b"", CV_EOF), C0103);
+
+    // ---- C04: deeper stacks, ASCII names (error texts are compared); <N, P, D, L>, raw = 7 + D + D*L + N
+    s4_end_d2_11_n4, unwind = 6, raw = 17, |r| check_step::<4, 4, 2, 2>(r, &rgs(ST_MARKUP, b'/', CV_END | CV_ILL, 2, 1, 1), C04);
+    s4_end_d2_21_n4, unwind = 6, raw = 17, |r| check_step::<4, 4, 2, 2>(r, &rgs(ST_MARKUP, b'/', CV_END | CV_ILL, 2, 2, 1), C04);
+    s4_end_d2_12_n4, unwind = 6, raw = 17, |r| check_step::<4, 4, 2, 2>(r, &rgs(ST_MARKUP, b'/', CV_END | CV_ILL, 2, 1, 2), C04);
+    s4_end_d1_2_n4,  unwind = 6, raw = 17, |r| check_step::<4, 4, 2, 2>(r, &rgs(ST_MARKUP, b'/', CV_END | CV_ILL, 1, 2, 0), C04);
+    s4_end_d0_n4,    unwind = 6, raw = 17, |r| check_step::<4, 4, 2, 2>(r, &rgs(ST_MARKUP, b'/', CV_END | CV_ILL, 0, 0, 0), C04);
+    s4_tag_d2_12_n3, unwind = 5, raw = 16, |r| check_step::<3, 3, 2, 2>(r, &rgs(ST_MARKUP, 1, CV_START, 2, 1, 2), C04);
+    s4_tag_d1_1_n3,  unwind = 5, raw = 16, |r| check_step::<3, 3, 2, 2>(r, &rgs(ST_MARKUP, 1, CV_START, 1, 1, 0), C04);
+    s4_empty_d2_12,  unwind = 5, raw = 14, |r| check_step::<1, 1, 2, 2>(r, &rgs(ST_EMPTY, 0, CV_END, 2, 1, 2), C04);
+    s4_empty_d1_2,   unwind = 5, raw = 14, |r| check_step::<1, 1, 2, 2>(r, &rgs(ST_EMPTY, 0, CV_END, 1, 2, 0), C04);
+
+    // ---- C08: spans; settings fixed to "nothing trimmed/expanded/rejected"
+    s8_tag_n4,      unwind = 6,  raw = 11, |r| check_step::<4, 4, 0, 0>(r, &rg8(ST_MARKUP, 1, b"", CV_START | CV_EMPTY), C08);
+    s8_end_n4,      unwind = 6,  raw = 11, |r| check_step::<4, 4, 0, 0>(r, &rg8(ST_MARKUP, b'/', b"", CV_END), C08);
+    s8_pi_n4,       unwind = 6,  raw = 11, |r| check_step::<4, 4, 0, 0>(r, &rg8(ST_MARKUP, b'?', b"", CV_PI), C08);
+    s8_decl_n3,     unwind = 9,  raw = 10, |r| check_step::<3, 7, 0, 0>(r, &rg8(ST_MARKUP, 0, b"?xml", CV_DECL), C08);
+    s8_comment_n4,  unwind = 9,  raw = 11, |r| check_step::<4, 7, 0, 0>(r, &rg8(ST_MARKUP, 0, b"!--", CV_COMMENT), C08);
+    s8_text_n4,     unwind = 6,  raw = 11, |r| check_step::<4, 4, 0, 0>(r, &rg8(ST_TEXT, 0, b"", CV_TEXT | CV_EOF), C08);
+    s8_init_n4,     unwind = 6,  raw = 11, |r| check_step::<4, 4, 0, 0>(r, &rg8(ST_INIT, 0, b"", CV_TEXT), C08);
+    s8_initbom_n3,  unwind = 8,  raw = 10, |r| check_step::<3, 6, 0, 0>(r, &rg8(ST_INIT, 0, BOM, CV_TEXT | CV_EOF), C08);
+
+    // ---- C05: namespace scopes
+    n5_resolve_s0, unwind = 8, raw = 14, |r| check_ns_resolve(r, 0);
+    n5_resolve_s1, unwind = 8, raw = 14, |r| check_ns_resolve(r, 1);
+    n5_resolve_s2, unwind = 8, raw = 14, |r| check_ns_resolve(r, 2);
+    n5_resolve_s3, unwind = 8, raw = 14, |r| check_ns_resolve(r, 3);
+    n5_popiter_s0, unwind = 8, raw = 11, |r| check_ns_pop_iter(r, 0);
+    n5_popiter_s1, unwind = 8, raw = 11, |r| check_ns_pop_iter(r, 1);
+    n5_popiter_s2, unwind = 8, raw = 11, |r| check_ns_pop_iter(r, 2);
+    n5_popiter_s3, unwind = 8, raw = 11, |r| check_ns_pop_iter(r, 3);
+    n5_push_t0,    unwind = 16, raw = 2, |r| check_ns_push(r, 0);
+    n5_push_t1,    unwind = 14, raw = 2, |r| check_ns_push(r, 1);
+    n5_push_t2,    unwind = 15, raw = 2, |r| check_ns_push(r, 2);
+    n5_push_t3,    unwind = 10, raw = 2, |r| check_ns_push(r, 3);
+    n5_depth_event_n3,    unwind = 6, raw = 6, |r| check_ns_depth::<3>(r, 0);
+    n5_depth_resolved_n3, unwind = 6, raw = 6, |r| check_ns_depth::<3>(r, 1);
+    n5_depth_toend_n4,    unwind = 7, raw = 7, |r| check_ns_depth::<4>(r, 2);
+    n5_depth_text_n4,     unwind = 7, raw = 7, |r| check_ns_depth::<4>(r, 3);
+
+    #[kani::stub(core::str::from_utf8, from_utf8_ascii)]
+    n5_skip_toend_0, unwind = 6, raw = 1, |r| check_ns_skip_shape(r, 2, false);
+    #[kani::stub(core::str::from_utf8, from_utf8_ascii)]
+    n5_skip_toend_1, unwind = 7, raw = 1, |r| check_ns_skip_shape(r, 2, true);
+    #[kani::stub(core::str::from_utf8, from_utf8_ascii)]
+    n5_skip_text_1,  unwind = 7, raw = 1, |r| check_ns_skip_shape(r, 3, true);
+
+    // ---- C19 / C08 / C09: writer
+    w19_start, unwind = 4, raw = 7, |r| check_indent_step(r, 0, false);
+    w19_end, unwind = 4, raw = 7, |r| check_indent_step(r, 1, false);
+    w19_empty, unwind = 4, raw = 7, |r| check_indent_step(r, 2, false);
+    w19_text, unwind = 4, raw = 7, |r| check_indent_step(r, 3, false);
+    w19_comment, unwind = 4, raw = 7, |r| check_indent_step(r, 4, false);
+    w19_cdata, unwind = 4, raw = 7, |r| check_indent_step(r, 5, false);
+    w19_decl, unwind = 4, raw = 7, |r| check_indent_step(r, 6, false);
+    w19_pi, unwind = 4, raw = 7, |r| check_indent_step(r, 7, false);
+    w19_doctype, unwind = 4, raw = 7, |r| check_indent_step(r, 8, false);
+    w19_eof, unwind = 4, raw = 7, |r| check_indent_step(r, 9, false);
+    w19_start_grow, unwind = 14, raw = 7, |r| check_indent_step(r, 0, true);
+    w19_end_grow, unwind = 14, raw = 7, |r| check_indent_step(r, 1, true);
+    w19_comment_grow, unwind = 14, raw = 7, |r| check_indent_step(r, 4, true);
+    w8_start_n3, unwind = 6, raw = 4, |r| check_writer_table::<3>(r, 0);
+    w8_end_n3, unwind = 6, raw = 4, |r| check_writer_table::<3>(r, 1);
+    w8_empty_n3, unwind = 6, raw = 4, |r| check_writer_table::<3>(r, 2);
+    w8_text_n3, unwind = 6, raw = 4, |r| check_writer_table::<3>(r, 3);
+    w8_comment_n3, unwind = 6, raw = 4, |r| check_writer_table::<3>(r, 4);
+    w8_cdata_n3, unwind = 6, raw = 4, |r| check_writer_table::<3>(r, 5);
+    w8_decl_n3, unwind = 6, raw = 4, |r| check_writer_table::<3>(r, 6);
+    w8_pi_n3, unwind = 6, raw = 4, |r| check_writer_table::<3>(r, 7);
+    w8_doctype_n3, unwind = 6, raw = 4, |r| check_writer_table::<3>(r, 8);
+    w8_eof_n3, unwind = 6, raw = 4, |r| check_writer_table::<3>(r, 9);
+
+    // ---- C10: escaping kernels
+    x10_parse_number, unwind = 13, raw = 11, |r| check_parse_number(r);
+    x10_unescape_n3,  unwind = 6,  raw = 4,  |r| check_unescape::<3>(r);
+    x10_unescape_n4,  unwind = 7,  raw = 5,  |r| check_unescape::<4>(r);
+    x10_unesc_s2,     unwind = 8,  raw = 4,  |r| check_unescape_shape(r, b"&??;");
+    x10_unesc_s3,     unwind = 9,  raw = 4,  |r| check_unescape_shape(r, b"&???;");
+    x10_unesc_s4,     unwind = 10, raw = 4,  |r| check_unescape_shape(r, b"&????;");
+    x10_unesc_num,    unwind = 9,  raw = 4,  |r| check_unescape_shape(r, b"&#??;");
+    x10_unesc_hex,    unwind = 10, raw = 4,  |r| check_unescape_shape(r, b"&#x??;");
+    x10_unesc_two,    unwind = 10, raw = 4,  |r| check_unescape_shape(r, b"?&lt;?&");
+    x10_esc_full_1,   unwind = 12,  raw = 1,  |r| check_escape1(r, 0, b"x", 0);
+    x10_esc_part_1,   unwind = 12,  raw = 1,  |r| check_escape1(r, 1, b"x", 0);
+    x10_esc_min_1,    unwind = 12,  raw = 1,  |r| check_escape1(r, 2, b"x", 0);
+    x10_esc_full_mid, unwind = 16, raw = 1,  |r| check_escape1(r, 0, b"<x>", 1);
+    x10_esc_full_end, unwind = 16, raw = 1,  |r| check_escape1(r, 0, b"a&x", 2);
+    x10_esc_part_mid, unwind = 16, raw = 1,  |r| check_escape1(r, 1, b"\"x'", 1);
+    x10_esc_min_mid,  unwind = 16, raw = 1,  |r| check_escape1(r, 2, b">x<", 1);
+    x10_inv_lt,   unwind = 12, raw = 1, |r| check_unescape_entity(r, 0);
+    x10_inv_gt,   unwind = 12, raw = 1, |r| check_unescape_entity(r, 1);
+    x10_inv_amp,  unwind = 12, raw = 1, |r| check_unescape_entity(r, 2);
+    x10_inv_apos, unwind = 12, raw = 1, |r| check_unescape_entity(r, 3);
+    x10_inv_quot, unwind = 12, raw = 1, |r| check_unescape_entity(r, 4);
+    x10_inv_mixed, unwind = 20, raw = 1, |r| check_unescape_entity(r, 5);
+
+    // ---- C11: one Attributes::next() from an arbitrary iterator state; raw = 5 + 2*K + N
+    a11_next_n5,      unwind = 8,  raw = 14, |r| check_attr_step::<5>(r, 1);
+    a11_skipvalue_n5, unwind = 8,  raw = 14, |r| check_attr_step::<5>(r, 2);
+    a11_skipeq_n8,    unwind = 11, raw = 17, |r| check_attr_step::<8>(r, 3);
+    a11_done_n3,      unwind = 6,  raw = 12, |r| check_attr_step::<3>(r, 0);
+    a11_next_n7,      unwind = 10, raw = 16, |r| check_attr_step::<7>(r, 1);
+
+    // ---- C16: neutral settings vs solver-chosen settings, both real; raw = 5 + N; generics <N, P>
+    r16_transform_n6, unwind = 9, raw = 9, |r| check_ref_transform::<6>(r);
+    s16_text_finding_n4, unwind = 6, raw = 11, |r| check_step::<4, 4, 0, 0>(r, &rgc(ST_TEXT, 0, b"", 0x60), C16_FINDING_ONLY);
+    d16_text_n3,     unwind = 5,  raw = 8, |r| check_cfgdiff::<3, 3>(r, &rgc(ST_TEXT, 0, b"", 0x60), 0);
+    d16_text_finding_n3, unwind = 5, raw = 8, |r| check_cfgdiff::<3, 3>(r, &rgc(ST_TEXT, 0, b"", 0x60), FINDING_ONLY);
+    d16_init_n3,     unwind = 5,  raw = 8, |r| check_cfgdiff::<3, 3>(r, &rgc(ST_INIT, 0, b"", 0x60), 0);
+    d16_tag_n3,      unwind = 5,  raw = 8, |r| check_cfgdiff::<3, 3>(r, &rgc(ST_MARKUP, 1, b"", 0x08), 0);
+    d16_end_n3,      unwind = 5,  raw = 8, |r| check_cfgdiff::<3, 3>(r, &rgc(ST_MARKUP, b'/', b"", 0x10), 0);
+    d16_pi_n3,       unwind = 5,  raw = 8, |r| check_cfgdiff::<3, 3>(r, &rgc(ST_MARKUP, b'?', b"", 0x7a), 0);
+    d16_comment_n3,  unwind = 8,  raw = 8, |r| check_cfgdiff::<3, 6>(r, &rgc(ST_MARKUP, 0, b"!--", 0x02), 0);
+    d16_text_n4,     unwind = 6,  raw = 9, |r| check_cfgdiff::<4, 4>(r, &rgc(ST_TEXT, 0, b"", 0x60), 0);
+    d16_tag_all_n3,  unwind = 5,  raw = 8, |r| check_cfgdiff::<3, 3>(r, &rgc(ST_MARKUP, 1, b"", 0x7a), 0);
+    d16_end_all_n3,  unwind = 5,  raw = 8, |r| check_cfgdiff::<3, 3>(r, &rgc(ST_MARKUP, b'/', b"", 0x7a), 0);
+    d16_text_all_n3, unwind = 5,  raw = 8, |r| check_cfgdiff::<3, 3>(r, &rgc(ST_TEXT, 0, b"", 0x7a), 0);
+
+    // ---- buffered step vs slice step; raw = 7 + K + F + N; generics <N, P, K cuts, F scheduled refills>
+    b2_tag_n4,      unwind = 7,  raw = 12, |r| check_bufstep::<4, 4, 1, 0>(r, &rg(ST_MARKUP, 1, b"", 0), C02);
+    b2_end_n4,      unwind = 7,  raw = 12, |r| check_bufstep::<4, 4, 1, 0>(r, &rg(ST_MARKUP, b'/', b"", 0), C02);
+    b2_pi_n4,       unwind = 7,  raw = 12, |r| check_bufstep::<4, 4, 1, 0>(r, &rg(ST_MARKUP, b'?', b"", 0), C02);
+    b2_bang_n4,     unwind = 7,  raw = 12, |r| check_bufstep::<4, 4, 1, 0>(r, &rg(ST_MARKUP, b'!', b"", 0), C02);
+    b2_comment_n4,  unwind = 10, raw = 12, |r| check_bufstep::<4, 7, 1, 0>(r, &rg(ST_MARKUP, 0, b"!--", 0), C02);
+    b2_cdata_n4,    unwind = 15, raw = 12, |r| check_bufstep::<4, 12, 1, 0>(r, &rg(ST_MARKUP, 0, b"![CDATA[", 0), C02);
+    b2_doctype_n4,  unwind = 15, raw = 12, |r| check_bufstep::<4, 12, 1, 0>(r, &rg(ST_MARKUP, 0, b"!DOCTYPE", 0), C02);
+    b2_text_n4,     unwind = 7,  raw = 12, |r| check_bufstep::<4, 4, 1, 0>(r, &rg(ST_TEXT, 0, b"", 0), C02);
+    b2_init_n4,     unwind = 7,  raw = 12, |r| check_bufstep::<4, 4, 1, 0>(r, &rg(ST_INIT, 0, b"", 0), C02);
+    b2_initbom_n3,  unwind = 9,  raw = 11, |r| check_bufstep::<3, 6, 1, 0>(r, &rg(ST_INIT, 0, BOM, 0), C02);
+    // C18: the same with a fault schedule for the first 3 refills (raw = 7 + K + F + N)
+    b18_tag_n3,     unwind = 9,  raw = 14, |r| check_bufstep::<3, 3, 1, 3>(r, &rg(ST_MARKUP, 1, b"", 0), C02 | C18);
+    b18_bang_n3,    unwind = 9,  raw = 14, |r| check_bufstep::<3, 3, 1, 3>(r, &rg(ST_MARKUP, b'!', b"", 0), C02 | C18);
+    b18_comment_n3, unwind = 12, raw = 14, |r| check_bufstep::<3, 6, 1, 3>(r, &rg(ST_MARKUP, 0, b"!--", 0), C02 | C18);
+    b18_text_n3,    unwind = 9,  raw = 14, |r| check_bufstep::<3, 3, 1, 3>(r, &rg(ST_TEXT, 0, b"", 0), C02 | C18);
+    b18_init_n3,    unwind = 9,  raw = 14, |r| check_bufstep::<3, 3, 1, 3>(r, &rg(ST_INIT, 0, b"", 0), C02 | C18);
+}
+
+#[cfg(kani)]
+#[kani::proof]
+#[kani::unwind(6)]
+fn zz_split_off_probe() {
+    let a: u8 = kani::any();
+    let b: u8 = kani::any();
+    let c: u8 = kani::any();
+    let mut v: Vec<u8> = Vec::with_capacity(9);
+    v.push(a);
+    v.push(b);
+    v.push(c);
+    let t = v.split_off(1);
+    assert!(t.len() == 2);
+    assert!(t[0] == b);
+    assert!(t[1] == c);
+    let cow: std::borrow::Cow<[u8]> = t.into();
+    let e = quick_xml::events::BytesEnd::new("x");
+    let s: &[u8] = &cow;
+    assert!(s[1] == c);
+    core::mem::forget(e);
+}
+
+#[cfg(kani)]
+#[kani::proof]
+#[kani::unwind(6)]
+fn zz_empty_probe() {
+    let n0: [u8; 2] = kani::any();
+    let n1: [u8; 2] = kani::any();
+    let mut ob: Vec<u8> = Vec::with_capacity(9);
+    let mut os: Vec<usize> = Vec::with_capacity(4);
+    os.push(ob.len());
+    ob.push(n0[0]);
+    os.push(ob.len());
+    ob.push(n1[0]);
+    ob.push(n1[1]);
+    let cfg = crate::refmodel::tok::Cfg::from_bits(0);
+    let mut reader = quick_xml::reader::Reader::verif_from_state(&b"x"[..], 3, 7, 0, cfg.to_real(), ob, os);
+    let res = reader.read_event();
+    match &res {
+        Ok(quick_xml::events::Event::End(e)) => {
+            let nm: &[u8] = e;
+            assert!(nm.len() == 2, "probe len");
+            assert!(nm[0] == n1[0], "probe b0");
+            assert!(nm[1] == n1[1], "probe b1");
+        }
+        _ => assert!(false, "probe kind"),
+    }
+    core::mem::forget(res);
+    core::mem::forget(reader);
 }
